@@ -675,6 +675,7 @@ type stageExec struct {
 	acked     map[string][][2]int64 // name|md5 -> acknowledged ranges
 	oldLogged map[string]int64      // name|md5|renamed -> time of a record written by `oldlog`
 	prevOf    map[string]string     // name|hashtoken -> predecessor announced last for that version
+	renamedOf map[string]map[string]bool // name|hashtoken -> the rename targets ("" = none) announced for that version
 	arrivals  map[string][]arrival // name -> versions whose parts arrived, with the number of log records of the name then
 	written   map[string][][2]int64 // name -> ranges fed into the current partial since it was created
 	exempt    map[string]bool       // names to which a natural PrepareOk failure happened
@@ -705,7 +706,7 @@ func newStageExec() *stageExec {
 	return &stageExec{rig: rig, err: err, md5Of: map[string]string{}, tokOf: map[string]string{},
 		names: map[string]bool{}, targets: map[string]bool{}, handles: map[string]*pendingRecv{},
 		kinds: map[string]bool{}, delivered: map[string][]byte{}, versions: map[string]map[string]bool{}, corrupted: map[string]bool{},
-		acked: map[string][][2]int64{}, oldLogged: map[string]int64{}, written: map[string][][2]int64{}, exempt: map[string]bool{}, misfed: map[string]bool{}, arrivals: map[string][]arrival{}, failedAt: map[string]int{}, prevOf: map[string]string{}, confirmed: map[string]bool{}, consumed: map[string]bool{},
+		acked: map[string][][2]int64{}, oldLogged: map[string]int64{}, written: map[string][][2]int64{}, exempt: map[string]bool{}, misfed: map[string]bool{}, arrivals: map[string][]arrival{}, failedAt: map[string]int{}, prevOf: map[string]string{}, renamedOf: map[string]map[string]bool{}, confirmed: map[string]bool{}, consumed: map[string]bool{},
 		tolerated: map[string]int{}, taken: map[string]*takenFile{}}
 }
 
@@ -830,6 +831,10 @@ func (e *stageExec) partial(n, renamed, prev, size, hash, beg, end string) (*sts
 	}
 	e.versions[name][tok] = true
 	e.prevOf[name+"|"+tok] = unesc(prev)
+	if e.renamedOf[name+"|"+tok] == nil {
+		e.renamedOf[name+"|"+tok] = map[string]bool{}
+	}
+	e.renamedOf[name+"|"+tok][unesc(renamed)] = true
 	// when a part of a version arrives, remember how many receive-log records of the name exist (oracleOnce)
 	nrec := 0
 	for _, l := range e.readLog() {
@@ -1844,6 +1849,24 @@ func (e *stageExec) oracleNotLost() {
 			continue
 		}
 		e.fails = append(e.fails, fmt.Sprintf("validated-lost: %s was reported as passed/waiting but is neither logged nor held as .wait", name))
+	}
+	// A version is delivered under the name the sender asked for: the rename target of a record is one that was
+	// announced for that version (the target travels with the companion across a restart).
+	for _, l := range e.readLog() {
+		if _, old := e.oldLogged[l.name+"|"+l.hash+"|"+l.renamed]; old {
+			continue
+		}
+		tok := e.tokOfHash(l.hash)
+		if set := e.renamedOf[l.name+"|"+tok]; set != nil && !set[l.renamed] {
+			var want []string
+			for t := range set {
+				want = append(want, esc(t))
+			}
+			sort.Strings(want)
+			e.fails = append(e.fails, fmt.Sprintf("final-wrong-target: %s (version %s) was announced with rename target %s but is recorded and delivered as %s",
+				esc(l.name), tok, strings.Join(want, "|"), esc(l.renamed)))
+			break
+		}
 	}
 	// A logged version is delivered: the receive-log record is written BEFORE the move into the final directory, and
 	// a restart must finish what the record promises (the sender is told "passed" from the record alone and never
